@@ -85,7 +85,7 @@ var ntLeanReserved = map[string]bool{"at": true, "from": true, "fun": true, "end
 	"mut": true, "try": true, "catch": true, "finally": true, "macro": true, "syntax": true, "structure": true,
 	"inductive": true, "class": true, "abbrev": true, "example": true, "axiom": true, "private": true,
 	"protected": true, "partial": true, "unsafe": true, "mutual": true, "infix": true, "notation": true,
-	"bind": true, "Res": true, "Sx": true, "true": true, "false": true, "calc": true, "suffices": true,
+	"bind": true, "shl": true, "shrU": true, "shrS": true, "mapRes": true, "Res": true, "Sx": true, "true": true, "false": true, "calc": true, "suffices": true,
 	"nomatch": true, "nofun": true, "using": true, "local": true, "set_option": true, "attribute": true}
 
 // ---------------------------------------------------------------- representation of Go types
@@ -1600,14 +1600,14 @@ func (c *ntCtx) binop(n ast.Node, op token.Token, l string, lt ntType, r string,
 		if rt.signed && rconst == nil {
 			return "", none, nil, c.refuse(n, "shift by a signed count (panics when negative)")
 		}
-		cnt := "(BitVec.toNat " + R + ")"
+		// GoSem.shl/shrU/shrS = BitVec's <<< / >>> / sshiftRight by the count's toNat (shl_eq, …)
 		switch {
 		case op == token.SHL:
-			return fmt.Sprintf("%s <<< %s", L, cnt), lt, nil, nil
+			return fmt.Sprintf("shl %s %s", L, R), lt, nil, nil
 		case lt.signed:
-			return fmt.Sprintf("BitVec.sshiftRight %s %s", L, cnt), lt, nil, nil
+			return fmt.Sprintf("shrS %s %s", L, R), lt, nil, nil
 		default:
-			return fmt.Sprintf("%s >>> %s", L, cnt), lt, nil, nil
+			return fmt.Sprintf("shrU %s %s", L, R), lt, nil, nil
 		}
 	}
 	if !lt.same(rt) {
